@@ -641,7 +641,8 @@ fn build_family_case(desc: &Desc) -> (Case, &'static str) {
             veh.capacity = (peak + margin).max(1);
             let mut candidates = Vec::new();
             for size in 1..=3 {
-                for kind in [Kind::Delivery, Kind::Pickup] {
+                // static delivery, static pickup, and both at once (equal = a replacement, and unequal amounts)
+                for kind in [Kind::Delivery, Kind::Pickup, Kind::Exchange(size), Kind::Exchange(size % 3 + 1)] {
                     jobs.push(single(2, 0., vec![(0., None)], kind, size));
                     candidates.push(jobs.len() - 1);
                 }
@@ -720,6 +721,7 @@ fn main() {
         check_case(&run, &case, "random", Some(case_seed));
     });
 
+    run.floor("candidates with a static delivery and a static pickup at one activity (exchange / replacement)", run.observed_keys("job").iter().filter(|k| k.contains("/exchange/")).map(|k| run.observed("job", k)).sum(), 1000);
     run.floor("evaluations", run.evaluations(), 100_000);
     run.floor("exhaustive family cases completed", exhaustive_done, descs.len() as u64);
     run.floor("random cases", run.observed("origin", "random"), 1_000);
